@@ -104,10 +104,21 @@ def first_diff(a, b, chains):
 
 def stream_replays(rec):
     seen = {}
+    # generator states from which metric adapters drew the refreshed momenta
+    for a in rec.log.adapter:
+        if a["ev"] == "finalize" and a.get("rng_before"):
+            for c, (dg, adv) in enumerate(zip(a["rng_before"], a.get("rng_advanced", []))):
+                if not adv:
+                    continue
+                if dg in seen:
+                    return f"adapter {a['adapter']} finalize drew the refreshed momentum of chain {c} from a generator state already used earlier in the run"
+                seen[dg] = -1
     for idx, e in enumerate(rec.log.entries):
         if e["trans"] not in ("momentum_transition", "rw"):
             continue
         prev = seen.get(e["pre_rng"])
+        if prev == -1:
+            return f"generator state at transition call #{idx} (chain {e['chain']}) repeats the state from which an adapter finalize drew a refreshed momentum"
         if prev is not None:
             p = rec.log.entries[prev]
             return (
